@@ -420,6 +420,74 @@ def interp_fails(Fail, solo, runs):
     return fails
 
 
+# ---- weather gaps on the boundaries (C11): first / last record of a year, of the file, single and multi-day, at the turn of a
+# year, in the first / a middle / the last simulated year; layout 1 (csv, project ex1) and layout 2 (w6d, project rue).
+# (layout 0 = known finding F9, see FAILING)
+GAP_SPECS = {   # name -> (dates removed, keep only the years up to)
+    "jan1-middle-year":     (["1981-01-01"], None),
+    "jan1-3days":           (["1982-01-01", "1982-01-02", "1982-01-03"], None),
+    "jan1-last-year":       (["1983-01-01"], None),
+    "dec31-first-year":     (["1980-12-31"], None),
+    "dec31-middle-year":    (["1981-12-31"], None),
+    "turn-of-year":         (["1981-12-31", "1982-01-01"], None),
+    "last-record-of-file":  (["1983-12-31"], 1983),
+    "last-2-records-of-file": (["1983-12-30", "1983-12-31"], 1983),
+    "jan2-only":            (["1982-01-02"], None),
+}
+GAPS = {}
+for _n in GAP_SPECS:
+    GAPS["weather-gap:%s@layout1" % _n] = ("project=ex1 WeatherFolder=g1_%s fcode=109_120 Altitude=73 Latitude=52.6732 poligonID=29872 "
+                                           "EndDate=12311983 soilId=075 plotNr=10001" % _n)
+    GAPS["weather-gap:%s@layout2" % _n] = ("project=rue WeatherFolder=g2_%s fcode=109_120 plotNr=10001 soilId=001 Altitude=73 Latitude=52.6732 "
+                                           "poligonID=29872 EndDate=31121983" % _n)
+
+
+def make_gap_weather(ex):
+    import datetime
+    src = os.path.join(ex, "weather", "historical")
+    csv = open(os.path.join(src, "109_120.csv")).read().split("\n")
+    w6d = open(os.path.join(src, "109_120.w6d")).read().split("\n")
+    for name, (dates, lastyear) in GAP_SPECS.items():
+        d1 = os.path.join(ex, "weather", "g1_" + name); os.makedirs(d1, exist_ok=True)
+        keep = [l for l in csv if l[:10] not in dates and not (lastyear and l[:4].isdigit() and int(l[:4]) > lastyear)]
+        open(os.path.join(d1, "109_120.csv"), "w").write("\n".join(keep) + ("" if keep[-1] == "" else "\n"))
+        codes = set()
+        for ds in dates:
+            dt = datetime.date.fromisoformat(ds)
+            codes.add("%d%03d" % (dt.year, dt.timetuple().tm_yday))
+        d2 = os.path.join(ex, "weather", "g2_" + name); os.makedirs(d2, exist_ok=True)
+        keep = [l for l in w6d if l.strip()[:7] not in codes and not (lastyear and l.strip()[:4].isdigit() and int(l.strip()[:4]) > lastyear)]
+        open(os.path.join(d2, "109_120.w6d"), "w").write("\n".join(keep) + ("" if keep[-1] == "" else "\n"))
+
+
+# ---- a valid line that books more automatic irrigation events than the initial length (1200) of the irrigation slices
+# (types.go NewGlobalVarsMain BREG/BRKZ/ZTBR, grown by setIrrigation): many small applications, 31 years
+LONG_IRRIGATION = {"long-irrigation": "project=lirr WeatherFolder=historical soilId=075 fcode=109_120 plotNr=10001 Altitude=73 Latitude=52.6732 poligonID=29872"}
+
+
+def make_long_irrigation(ex):
+    d = _clone(ex, "ex1", "lirr")
+    p = os.path.join(d, "automan.txt")
+    out = []
+    for i, l in enumerate(open(p).read().split("\n")):
+        if i > 0 and len(l.strip()) >= 3:
+            l = l.rstrip("\r").ljust(180)
+            l = l[:80] + "1" + l[81:]          # Irrdv1: from stage 1
+            l = l[:87] + "9" + l[88:]          # Irrdv2: to stage 9
+            l = l[:163] + "99 " + l[166:]      # Irrlow 99 %
+            l = l[:177] + "1  " + l[180:]      # irrmax 1 mm
+        out.append(l)
+    open(p, "w").write("\n".join(out))
+    shutil.copy(os.path.join(ex, "project", "ex3", "managementout_conf.yml"), os.path.join(d, "managementout_conf.yml"))
+    cfg = os.path.join(d, "config.yml")
+    t = open(cfg).read()
+    if re.search(r"^ManagementEvents:", t, re.M):
+        t = re.sub(r"^ManagementEvents:.*$", "ManagementEvents: 1", t, flags=re.M)
+    else:
+        t += "\nManagementEvents: 1\n"
+    open(cfg, "w").write(t)
+
+
 class Exec:
     """one execution of the batch binary"""
     def __init__(self):
